@@ -181,6 +181,10 @@ type history struct {
 	// tls.X509KeyPair loads (after seeded change C14-M, a "still being written" heuristic that waited for a final newline):
 	// 0 as encoded, 1 no final newline, 2 CRLF line ends, 3 explanatory text before the first block, 4 blank lines at the end
 	PEMStyle int `json:"pem_style,omitempty"`
+	// OldMtime: files that are renamed into place (rename-over, the directories of a symlink swap) carry a modification
+	// time of an hour ago, as after `cp -p`, `rsync -t`, a roll-back to kept copies or a pair staged earlier
+	// (after seeded change C14-N, which skipped reloads unless the modification time had advanced)
+	OldMtime bool `json:"renamed_files_keep_an_old_mtime,omitempty"`
 }
 
 func pemStyled(b []byte, style int) []byte {
